@@ -189,6 +189,11 @@ class Controller(object):
             return self.send_error(mid, cid, msg, error_, cast=cast,
                                    errno=errors.UNKNOWN_COMMAND)
 
+        if not isinstance(properties, dict):
+            return self.send_error(mid, cid, msg, "'properties' should be "
+                                   "an object", cast=cast,
+                                   errno=errors.MESSAGE_ERROR)
+
         try:
             cmd.validate(properties)
             resp = cmd.execute(self.arbiter, properties)
